@@ -112,6 +112,7 @@ static void do_ini(int nw, char **w) {
     }
     char *s = cstr_exact(&doc);
     alarm(WATCHDOG_S);
+    errno = ENOMEM;   /* poison: no result may depend on the errno left by earlier, unrelated calls */
     qlisttbl_t *t = qconfig_parse_str(NULL, s, (char) sep.p[0]);
     alarm(0);
     if (t == NULL) {
@@ -157,6 +158,7 @@ static void do_ac(int nw, char **w) {
     int added = conf->addoptions(conf, opts);
     if (defcb) conf->setdefhandler(conf, cb_def);
     alarm(WATCHDOG_S);
+    errno = ENOMEM;   /* poison, see do_ini */
     int ret = conf->parse(conf, tmp_path, (uint8_t) flags);
     alarm(0);
     fclose(cbout);
